@@ -46,6 +46,7 @@ type Script struct {
 	ExeMsg                string
 	Nondet                bool
 	ShowConf              bool // Execute reports the configured option (C11)
+	Stateful              bool // the instance accumulates state across Execute calls and reports it (C04: fresh instance per run)
 	execAgain             func() Obs
 	armed                 bool // constructor panics only once armed (registration calls it for its nil check)
 }
@@ -88,9 +89,10 @@ type mockConf struct {
 }
 
 type mockCore struct {
-	s    *Script
-	log  *[]int
-	conf mockConf
+	s     *Script
+	log   *[]int
+	conf  mockConf
+	calls int // per-instance state: a fresh instance always reports 1
 }
 
 func (m *mockCore) applies() bool {
@@ -106,6 +108,10 @@ func (m *mockCore) applies() bool {
 
 func (m *mockCore) execute() *lint.LintResult {
 	*m.log = append(*m.log, evExecute)
+	m.calls++
+	if m.s.Stateful && m.calls != 1 {
+		return &lint.LintResult{Status: lint.Fatal, Details: fmt.Sprintf("instance reused: Execute call number %d on this instance", m.calls)}
+	}
 	if m.s.ShowConf && m.conf.A != 0 {
 		return &lint.LintResult{Status: lint.Notice, Details: fmt.Sprintf("A=%d", m.conf.A)}
 	}
